@@ -301,6 +301,24 @@ def seeded_variants() -> List[dict]:
     return out
 
 
+def refactor_variants() -> List[dict]:
+    """behaviour-preserving refactorings written by independent sub-agents (/verif/refactors): twins for every property"""
+    import json
+
+    base = os.path.join(os.path.dirname(os.path.dirname(os.path.abspath(__file__))), "refactors")
+    out = []
+    if not os.path.isdir(base):
+        return out
+    for d in sorted(os.listdir(base)):
+        mp, pp = os.path.join(base, d, "meta.json"), os.path.join(base, d, "patch.diff")
+        if not (os.path.exists(mp) and os.path.exists(pp)):
+            continue
+        meta = json.load(open(mp))
+        edits = _hunks(open(pp).read())
+        out.append(dict(id="refactor-" + d, props=[f"C{i:02d}" for i in range(1, 21)], module=edits[0][0] if edits else "?", edits=edits, rule=None, func=None, what="independent refactoring of: " + meta["area"][:120], twin=True, optional=True))
+    return out
+
+
 def _eval(args) -> dict:
     prop, v, src_dir, base_keys = args
     t0 = time.time()
@@ -339,7 +357,7 @@ def _eval(args) -> dict:
 
 
 def run(prop: str, chk: Check, src_dir: str = REPO_SRC, jobs: int = 16):
-    mine = [v for v in VARIANTS + seeded_variants() if prop in v["props"]]
+    mine = [v for v in VARIANTS + seeded_variants() + refactor_variants() if prop in v["props"]]
     base_keys = [list(f.key()) for f in chk.findings]
     results = []
     if mine:
@@ -380,5 +398,6 @@ def run(prop: str, chk: Check, src_dir: str = REPO_SRC, jobs: int = 16):
             f"{prop}: self-validation failed — seeded faults not detected: {[v['id'] for v in missed]}; twins raising an alarm: {[v['id'] for v in alarms]}; "
             + "; ".join(str(by[v['id']].get('why', by[v['id']].get('new', '')))[:200] for v in missed + alarms)
         )
-    if mine and len(applicable) * 2 < len(mine):
+    core = [v for v in mine if not v.get("optional")]
+    if core and len([v for v in core if by[v["id"]]["status"] != "skipped"]) * 2 < len(core):
         raise AnalysisError(f"{prop}: fewer than half of the self-validation variants apply to the current sources ({len(applicable)}/{len(mine)}): the corpus no longer matches the code")
